@@ -66,6 +66,12 @@ func (f *CSVFormatter) writeValue(s string) {
 }
 
 func (f *CSVFormatter) prepareLine(line interface{}) map[string]interface{} {
+	// A nil pointer (such as the name of an individual without a NAME) has no
+	// fields.
+	if v := reflect.ValueOf(line); v.Kind() == reflect.Ptr && v.IsNil() {
+		return nil
+	}
+
 	if m, ok := line.(gedcom.ObjectMapper); ok {
 		return m.ObjectMap()
 	}
